@@ -173,6 +173,14 @@ def run_query(m, q):
             return {"ok": [[k, num(v)] for k, v in sim.y0.items()]}
         if kind == "tc":
             return run_tc(m, q[1])
+        if kind == "simupd":
+            # a Simulator built on the model, with variables overridden before any simulation,
+            # must not change what the model itself reports afterwards
+            from mxlpy import Simulator
+
+            sim = Simulator(m)
+            sim.update_variables({k: fexpr.to_float(Fraction(v)) for k, v in q[1]})
+            return {"ok": [[k, num(v)] for k, v in sim.y0.items()]}
         t = fexpr.to_float(Fraction(q[2])) if kind != "call" else fexpr.to_float(Fraction(q[1]))
         if kind == "args":
             s = m.get_args(_vars_arg(q[1]), t)
@@ -415,13 +423,18 @@ class Spec:
     def rhs(self, state, t):
         env = self.at(state, t)
         d = {k: Fraction(0) for k in self.vars}
+        def g(v):
+            if not fexpr.is_dyadic_small(v):
+                raise Inexact(str(v))
+            return v
+
         for r, rx in self.rxns.items():
             for cpd, cj in rx["st"]:
-                d[cpd] += self.coef(cj, env) * env[r]
+                d[cpd] = g(d[cpd] + g(self.coef(cj, env) * env[r]))
         for s in self.surs.values():
             for f, st in s["st"]:
                 for cpd, cj in st:
-                    d[cpd] += self.coef(cj, env) * env[f]
+                    d[cpd] = g(d[cpd] + g(self.coef(cj, env) * env[f]))
         return d
 
     def stoich(self, state, t):
@@ -473,6 +486,10 @@ class Spec:
                 return {"ok": sorted([k, rat_str(Fraction(v["v"]))] for k, v in self.pars.items() if "v" in v)}
             if kind == "tc":
                 return self.answer_tc(q[1])
+            if kind == "simupd":
+                ic = dict(self.init_conditions())
+                ic.update({k: rat_str(Fraction(v)) for k, v in q[1]})
+                return {"ok": [[k, ic[k]] for k in self.vars]}
             if kind == "call":
                 st = dict(zip(self.vars, q[2], strict=True))
                 d = self.rhs(st, q[1])
